@@ -1,6 +1,7 @@
 """C09 — the built pipeline graph routes data exactly as the configuration says."""
 import hashlib
 import os
+import re
 import shutil
 
 import vlib
@@ -9,11 +10,12 @@ import vlib
 class P(vlib.Prop):
     pid = "C09"
     coq_dirs = ["Common", "C09", "Generated"]
-    coq_targets = ["C09/Properties.vo", "C09/Witness.vo", "C09/Harness.vo"]
+    coq_targets = ["C09/Properties.vo", "C09/Witness.vo", "C09/Harness.vo", "C09/Clauses.vo", "C09/TieDefs.vo"]
     properties_module = "C09.Properties"
     properties_file = "C09/Properties.v"
     instance_obligations = ["tie_node_kinds", "tie_edge_targets_consume", "tie_supported_table", "tie_undefined_is_zero"]
-    harness_module = "C09.Harness"
+    harness_module = "C09.Clauses"
+    check_fn = "check_case2"
     case_type = "wcfg * wobs"
     shard = 40
     harnesses = [
@@ -32,7 +34,9 @@ class P(vlib.Prop):
             "four schemes (decimal, case-only differences, long common prefix, non-ASCII + long suffix); compared with "
             "the Coq model: Validate verdict, build error class (+ the named unsupported use / the reported cycle), "
             "multiset of created and of started component nodes, per receiver the multiset of (exporter, trail) for both "
-            "payloads and under faults (+ error returned to the receiver), per connector instance the router's pipeline ids. "
+            "payloads and under faults (+ error returned to the receiver), per connector instance the router's pipeline ids and the "
+            "outcome of five router.Consumer(ids...) requests (none / all / one repeated / one foreign / random) incl. what a probe "
+            "datum sent into the returned consumer reaches. "
             "Thorough tier: 4500 random configurations plus EVERY configuration of two pipelines (ids among traces/p0, "
             "traces/p1, metrics/p0; receivers and exporters any non-empty subset of {plain 0, connector 10}; zero or one "
             "processor; connector 10 supporting all pairs / same-signal pairs / traces->metrics only): 5832 configurations. "
@@ -76,3 +80,50 @@ class P(vlib.Prop):
             "lines": None, "sha256": hashlib.sha256(new.encode()).hexdigest(),
             "defines": "Generated/C09StabilityTable.v: C09StabilityTable (%d rows)" % stats.get("stability_rows", 0),
             "params": None})
+
+    CLAUSES = {1: "routing", 2: "routing-readonly-payload", 3: "instances", 4: "rejected-nothing-started", 5: "started-once"}
+
+    def extra_checks(self, ctx):
+        """Failing-input search (DESIGN 2.5).
+        (1) every case on which model and implementation disagree is run through the decidable clause checkers
+            (Clauses.violated_clauses, sound by ClausesSound.v): a violated clause makes the case the failing input.
+        (2) a broken tie obligation over the connectorStability table: enumerate the table for rows / pairs on which the
+            generated and the hand-written definition differ and run the implementation on configurations that use them."""
+        done = set()
+        for m in ctx.mismatches[:12]:
+            if len(m["term"]) > 40000:
+                continue
+            out = vlib.coq_eval_term(ctx, "C09.Clauses", "violated_clauses %s" % m["term"])
+            body = out.split("=", 1)[1] if "=" in out else ""
+            body = body.split(":")[0]
+            for n in [int(x) for x in re.findall(r"\d+", body)]:
+                name = self.CLAUSES.get(n, str(n))
+                if name in done:
+                    continue
+                done.add(name)
+                ctx.oracle.append({"kind": "clause-" + name, "term": m["term"], "harness": m["harness"],
+                                   "detail": "the observed behaviour violates the property clause '%s' (decidable checker "
+                                             "Clauses.v, sound by ClausesSound.v)" % name})
+        if any("C09/Tie.v" in w for w, _ in ctx.broken):
+            try:
+                vlib.coq_make(ctx, ["C09/TieDefs.vo"])
+            except vlib.Broken:
+                return
+            out = vlib.coq_eval_term(ctx, "C09.TieDefs", "bad_rows")
+            rows = re.findall(r"\(\s*(true|false)\s*,\s*\[([^\]]*)\]\s*,\s*\[([^\]]*)\]\s*\)", out)
+            items = []
+            for x, decl, diff in rows[:20]:
+                mask = 0
+                for e, r in re.findall(r"\((\d+)\s*,\s*(\d+)\)", decl):
+                    mask |= 1 << (int(e) * 4 + int(r))
+                for e, r in re.findall(r"\((\d+)\s*,\s*(\d+)\)", diff)[:2]:
+                    items.append("%s,%s,%d,%d" % (e, r, 1 if x == "true" else 0, mask))
+            ctx.notes.append("tie obligation broken: %d table rows differ; searching with configurations %s" % (len(rows), ";".join(items[:8])))
+            if items:
+                h0 = self.harnesses[0]
+                h = vlib.Harness("tiesearch", h0.module, h0.pkg, h0.files, h0.run, h0.gopkg, timeout=600,
+                                 extra_env={"VERIF_C09_EXTRA_CFGS": ";".join(items), "VERIF_C09_EXTRA_ONLY": "1"})
+                cases, oracle, stats, err = vlib.run_harness(ctx, h)
+                for f in oracle:
+                    f["kind"] = "tie-" + f["kind"]
+                    ctx.oracle.append(f)
